@@ -293,6 +293,34 @@ def run_triple(case):
       if not eqs(got, run_sig(pf, x)):
         return bad("cascade:product", "CascadeFilter output differs from the product filter's output",
                    run_sig(pf, x)[:4], got[:4], nt)
+    for share in (False, True):
+     # share=True: equal specifications are ONE filter object appearing several times
+     cache = {}
+     parts = [cache.setdefault(repr(s), mk(s)) if share else mk(s) for s in specs[:n]]
+     if share and len(cache) == n:
+       continue
+     par = ParallelFilter(*parts)
+     got = [Sym.lift(v) for v in par(list(x), zero=Q(0))]
+     exp = [sum((o[i] for o in outs[:n]), Sym(0)) for i in range(NS)]
+     if not eqs(got, exp):
+       return bad("parallel:signal", "ParallelFilter output is not the sum of the parts' outputs",
+                  exp[:4], got[:4], nt)
+     tot = R3[0]
+     for r in R3[1:n]:
+       tot = tot + r
+     libp = RF({k: F(v) for k, v in par.numpoly.terms()}, {k: F(v) for k, v in par.denpoly.terms()})
+     if not libp.same(tot):
+       return bad("parallel:polys", "ParallelFilter numpoly/denpoly are not the sum of the parts"
+                  + (" (one filter object listed several times)" if share else ""),
+                  {"num": tot.num, "den": tot.den}, {"num": str(par.numpoly), "den": str(par.denpoly)}, nt)
+     casc = CascadeFilter(*parts)
+     prod = R3[0]
+     for r in R3[1:n]:
+       prod = prod * r
+     libc = RF({k: F(v) for k, v in casc.numpoly.terms()}, {k: F(v) for k, v in casc.denpoly.terms()})
+     if not libc.same(prod):
+       return bad("cascade:polys", "CascadeFilter numpoly/denpoly are not the product of the parts",
+                  {"num": prod.num, "den": prod.den}, {"num": str(casc.numpoly), "den": str(casc.denpoly)}, nt)
     parts = [mk(s) for s in specs[:n]]
     par = ParallelFilter(*parts)
     got = [Sym.lift(v) for v in par(list(x), zero=Q(0))]
